@@ -700,7 +700,15 @@ func ruleC03Handlers(w *World, r *Report) {
 				}
 				kk, isK := constInt(y)
 				cc, isCall := x.(*ssa.Call)
-				return isK && kk == 0 && isCall && calleeName(cc) == "strings.Compare" && strings.Contains(symOf(cc).String(), "nodeID.remote")
+				if isK && kk == 0 && isCall && calleeName(cc) == "strings.Compare" && strings.Contains(symOf(cc).String(), "nodeID.remote") {
+					return true
+				}
+				// the same test written with ==
+				if bt, isB := x.Type().Underlying().(*types.Basic); isB && bt.Info()&types.IsString != 0 {
+					sx, sy := symOf(x).String(), symOf(y).String()
+					return (strings.Contains(sx, "nodeID.remote") && strings.Contains(sy, "NodeID")) || (strings.Contains(sy, "nodeID.remote") && strings.Contains(sx, "NodeID"))
+				}
+				return false
 			})
 			r.check(g1, "R03.5", hn, fmt.Sprintf("datapath write #%d only with a matching association", k+1), w.Pos(c.Pos()), "dominated by nodeID == association's node id", "establishment writes to the datapath without a matching association")
 			g2 := onlyVia(est, c, func(a, b *ssa.BasicBlock) bool {
@@ -1184,7 +1192,13 @@ func ruleStoredIsProgrammed(w *World, r *Report, prop, rule string) {
 					continue
 				}
 				// reachable from the call without starting the next iteration (the scratch cell is re-made there)
-				if reach(h, call, func(i ssa.Instruction) bool { return i == ssa.Instruction(st) }, func(i ssa.Instruction) bool { return i == ssa.Instruction(al) }, nil) != nil {
+				// (or overwritten whole: `p = pdr{}` at the top of the iteration when the declaration sits outside the loop)
+				if reach(h, call, func(i ssa.Instruction) bool { return i == ssa.Instruction(st) }, func(i ssa.Instruction) bool {
+					if ws, isStore := i.(*ssa.Store); isStore && ws.Addr == ssa.Value(al) {
+						return true
+					}
+					return i == ssa.Instruction(al)
+				}, nil) != nil {
 					late = st
 				}
 			}
